@@ -374,8 +374,9 @@ def run_c06(rep, tier, seed):
     for kind in ("SMG", "SCRG"):
         G = {n: Group(rep, f"C06/bounded/{kind}/{n}") for n in
              ("enantiomer-is-the-mirrored-reference", "original-untouched", "twice-is-identity", "equal-to-enantiomer-iff-achiral")}
+        from .scope import ligand_pattern_family
         for rep_i in range(1 if tier == "quick" else 4):
-            for name, ref in corpus(kind, seed + rep_i):
+            for name, ref in corpus(kind, seed + rep_i) + (ligand_pattern_family(kind, tier == "quick") if rep_i == 0 else []):
                 if not ref.atoms:
                     continue
                 distinct += 1
